@@ -99,12 +99,12 @@ def hostile_values(width_bytes):
 
     def mkview(i):
         return [
-            lambda: memoryview(bytes(range(1, n + 1))), lambda: memoryview(bytes(n + 1)), lambda: memoryview(b""),
+            lambda: memoryview(bytes(i % 255 + 1 for i in range(n))), lambda: memoryview(bytes(n + 1)), lambda: memoryview(b""),
             lambda: memoryview(array.array("H", [0x0201] * n)),
             lambda: memoryview(array.array("H", [0x0201] * max(1, n // 2))),
             lambda: memoryview(array.array("I", [0x04030201] * n)),
             lambda: memoryview(bytes(2 * n)).cast("B", [n, 2]), lambda: memoryview(bytes(2 * n)).cast("B", [2, n]),
-            lambda: bytearray(range(1, n + 1)), lambda: bytearray(n + 1)][i]()
+            lambda: bytearray(i % 255 + 1 for i in range(n)), lambda: bytearray(n + 1)][i]()
 
     views = st.integers(0, 9).map(mkview)
     return st.one_of(ints, floats, seqs, other, looks, views)
